@@ -3,7 +3,7 @@ from .. import conncheck
 
 SERVER = ['eof', 'ping', 'ping-empty', 'ping-125', 'ping-high', 'ping-ping', 'two', 'text', 'frag-text', 'frag-cont', 'frag-end',
           'ping-text-close', 'close-1000', 'ping!fail', 'ping-text-close!fail', 'silence', 'ping-then-bad', 'ctext', 'cfrag-text']
-APPS = ['send_text', 'send_pong', 'close']
+APPS = ['send_text', 'send_pong', 'close', 'close-too-long']
 
 
 class C14(conncheck.ConnCheck):
